@@ -129,7 +129,8 @@ qb_log_dcs_get(int32_t * newly_created,
 	if (csl_head->cs &&
 		lineno == csl_head->cs->lineno &&
 		priority == csl_head->cs->priority &&
-		(message_id ? (strcmp(message_id, csl_head->cs->message_id) == 0) : 1) &&
+		(message_id ? (csl_head->cs->message_id != NULL &&
+			       strcmp(message_id, csl_head->cs->message_id) == 0) : 1) &&
 		strcmp(safe_filename, csl_head->cs->filename) == 0 &&
 		strcmp(safe_function, csl_head->cs->function) == 0 &&
 		strcmp(safe_format, csl_head->cs->format) == 0) {
